@@ -925,6 +925,8 @@ Section Main.
       destruct (too_long (trim s)) eqn:Hcap; [discriminate|]. inversion Hb; subst E'. clear Hb.
       destruct (IHr i Er Hwr Hndr Ebr) as (Hf & Hok & Hs).
       destruct (name_okb_spec k Hk) as (Hk1 & Hk2 & _).
+      assert (Hkt : trim k = k) by (rewrite <- strip_trim by exact Hk1; exact Hk2).
+      rewrite Hkt in *.
       destruct (body_mk n IH E e v s HE HEok Hv Ev) as (_ & Hq & Hsok).
       destruct (value_of_flat _ _ _ true Hq Hcap) as (_ & bv & Hval).
       assert (Hnv : no_adj v = true) by (unfold wfl in Hv; apply andb_true_iff in Hv; apply Hv).
